@@ -14,7 +14,8 @@
 //     Processor.Close — small functions, compared verbatim with a reviewed text;
 //  3. the block handling of the statements as ordered call lists with `defer`, `for{ }` and `return` markers
 //     (`blockHandling`): Execute (auto-commit), execute, executeChild, IfStmt, Case, While, WhileInCursor, UserDefinedFunction.Execute /
-//     ExecuteAggregate / execute — EVERY call is listed, none is dropped;
+//     ExecuteAggregate / execute, evalFunction / evalAggregateFunction (eval.go: how a call reaches them) — EVERY
+//     call is listed, none is dropped;
 //  4. which handler ExecuteStatement gives each statement type to (`dispatch`).
 //
 // Subset of the walks: the loop body is a sequence of
@@ -623,6 +624,7 @@ func main() {
 	rsFile := parse("lib/query/reference_scope.go")
 	prFile := parse("lib/query/processor.go")
 	fnFile := parse("lib/query/user_defined_function.go")
+	evFile := parse("lib/query/eval.go")
 
 	walks := []string{"GetVariable", "SubstituteVariable", "SubstituteVariableDirectly", "DisposeVariable",
 		"TemporaryTableExists", "GetTemporaryTable", "ReplaceTemporaryTable", "DisposeTemporaryTable",
@@ -679,14 +681,19 @@ func main() {
 
 	handlers := []small{{prFile, "Processor", "Execute"}, {prFile, "Processor", "execute"}, {prFile, "Processor", "executeChild"}, {prFile, "Processor", "IfStmt"}, {prFile, "Processor", "Case"},
 		{prFile, "Processor", "While"}, {prFile, "Processor", "WhileInCursor"}, {fnFile, "UserDefinedFunction", "Execute"},
-		{fnFile, "UserDefinedFunction", "ExecuteAggregate"}, {fnFile, "UserDefinedFunction", "execute"}}
+		{fnFile, "UserDefinedFunction", "ExecuteAggregate"}, {fnFile, "UserDefinedFunction", "execute"},
+		{evFile, "", "evalFunction"}, {evFile, "", "evalAggregateFunction"}}
 	b.WriteString("/-- block handling of the statements: every call in order, with defer / for{ } / if{ } / return markers -/\ndef blockHandling : List (String × List String) :=\n  [")
 	for i, s := range handlers {
 		fd := findFunc(s.file, s.recv, s.name)
 		if i > 0 {
 			b.WriteString(",\n   ")
 		}
-		b.WriteString("(" + q(s.recv+"."+s.name) + ", " + leanList(callTrace(fd)) + ")")
+		n := s.name
+		if s.recv != "" {
+			n = s.recv + "." + s.name
+		}
+		b.WriteString("(" + q(n) + ", " + leanList(callTrace(fd)) + ")")
 	}
 	b.WriteString("]\n\n")
 
